@@ -66,11 +66,22 @@ func VH05a_cooked() {
 	rtag := byte(100)
 	sentBefore := func() int { return len(pipes[0].Sent) + len(pipes[1].Sent) }
 	for e := 0; e < E; e++ {
-		ev := verif.Choice("ev", 4)
+		ev := verif.Choice("ev", 5)
 		if e == 0 {
 			verif.Assume(ev == 0)
 		}
 		switch ev {
+		case 4: // a further context is opened in the middle of things: it starts with no request to answer
+			if len(cs) >= 3 {
+				verif.Assume(false)
+			}
+			cn, oerr := sock.OpenContext()
+			verif.Assert(oerr == nil, lab+"/open-context-later")
+			if oerr != nil {
+				return
+			}
+			cs = append(cs, &sctx{name: "late-ctx", c: cn})
+			verif.Reach("late-context")
 		case 0: // a request arrives
 			p := pipes[verif.Choice("pipe", 2)]
 			if p.Closed {
@@ -90,7 +101,7 @@ func VH05a_cooked() {
 			reqs = append(reqs, &reqrec{tag: tag, pipe: p, hdr: hdr})
 			p.Deliver(append(append([]byte{}, hdr...), tag))
 		case 1: // Recv on a context
-			s := cs[verif.Choice("ctx", 2)]
+			s := cs[verif.Choice("ctx", len(cs))]
 			if s.rg != nil || s.cur != nil {
 				// a second Recv before replying abandons the request in RESPONDENT but not in REP;
 				// the property does not say which, so such histories are not judged
@@ -99,7 +110,7 @@ func VH05a_cooked() {
 			ss := s
 			s.rg = verif.Go("recv", func() { ss.rmsg, ss.rerr = ss.recvMsg() })
 		case 2: // Send a reply on a context
-			s := cs[verif.Choice("ctx", 2)]
+			s := cs[verif.Choice("ctx", len(cs))]
 			rtag++
 			n0 := sentBefore()
 			l0, l1 := len(pipes[0].Sent), len(pipes[1].Sent)
